@@ -69,6 +69,11 @@ def wake (c : Chan α) : Chan α :=
 def send (c : Chan α) (m : α) : Chan α :=
   if c.isOpen then ({ c with queue := c.queue ++ [m] }).wake else { c with sendFailed := true }
 
+/-- `let _ = sender.unbounded_send(m)`: the terminal paths of the observers ignore a receiver that
+    is gone (after `fix: a dropped future/stream cannot make a terminal panic`). -/
+def trySend (c : Chan α) (m : α) : Chan α :=
+  if c.isOpen then ({ c with queue := c.queue ++ [m] }).wake else c
+
 /-- `close_channel()`, and also the drop of the last sender: `set_closed`, wake. -/
 def closeTx (c : Chan α) : Chan α := ({ c with isOpen := false }).wake
 
@@ -117,7 +122,7 @@ def sendObservableValue (last : Option FMsg) (x : FMsg) : Option FMsg :=
 
 /-- `ObservableFutureObserver::complete` (then `self` is dropped: the sender's drop closes again). -/
 def futComplete (last : Option FMsg) (c : Chan FMsg) : Chan FMsg :=
-  ((c.send (last.getD .empty)).closeTx).closeTx
+  ((c.trySend (last.getD .empty)).closeTx).closeTx
 
 /-- `ObservableFutureObserver::error`.  Code: records, sends nothing, `self` is dropped
     (the drop of the only sender closes the channel).  FIX: then resolve as `complete` does. -/
@@ -164,17 +169,16 @@ def emit (m : Model) (w : FutW) : Notif → FutW
     if w.srcOpen then
       match w.obs with
       | some last =>
-        -- `filter(|o| !o.p_is_closed())`: is_finished = sender.is_closed()
-        if w.chan.isOpen then { srcOpen := false, obs := none, chan := futError m last e w.chan }
-        else { srcOpen := false, obs := none, chan := w.chan.closeTx }
+        -- every entry of the subject is handed the terminal, also one whose `is_finished()`
+        -- (= `sender.is_closed()`) is true: no `p_is_closed()` filter since `fix: Subject::error/
+        -- complete hand the terminal to every subscriber`
+        { srcOpen := false, obs := none, chan := futError m last e w.chan }
       | none => { w with srcOpen := false }
     else w
   | .complete =>
     if w.srcOpen then
       match w.obs with
-      | some last =>
-        if w.chan.isOpen then { srcOpen := false, obs := none, chan := futComplete last w.chan }
-        else { srcOpen := false, obs := none, chan := w.chan.closeTx }
+      | some last => { srcOpen := false, obs := none, chan := futComplete last w.chan }
       | none => { w with srcOpen := false }
     else w
 
@@ -214,9 +218,7 @@ def emit (m : Model) (w : CFW) : Notif → CFW
   | .error e =>
     if w.srcOpen then
       match w.obs with
-      | some (_, last) =>
-        if w.chan.isOpen then { srcOpen := false, obs := none, chan := futError m last e w.chan }
-        else { srcOpen := false, obs := none, chan := w.chan.closeTx }
+      | some (_, last) => { srcOpen := false, obs := none, chan := futError m last e w.chan }
       | none => { w with srcOpen := false }
     else w
   | .complete =>
@@ -224,10 +226,8 @@ def emit (m : Model) (w : CFW) : Notif → CFW
       match w.obs with
       | some (coll, last) =>
         -- `observer.next(collection); observer.complete()`
-        if w.chan.isOpen then
-          { srcOpen := false, obs := none,
-            chan := futComplete (sendObservableValue last (.ok (Val.ofList coll))) w.chan }
-        else { srcOpen := false, obs := none, chan := w.chan.closeTx }
+        { srcOpen := false, obs := none,
+          chan := futComplete (sendObservableValue last (.ok (Val.ofList coll))) w.chan }
       | none => { w with srcOpen := false }
     else w
 
@@ -288,17 +288,14 @@ def emit (w : StrW) : Notif → StrW
   | .error e =>
     if w.srcOpen then
       if w.obs then
-        if w.chan.isOpen then
-          { srcOpen := false, obs := false, chan := (w.chan.send (.item (.err e))).closeTx }
-        else { srcOpen := false, obs := false, chan := w.chan.closeTx }
+        -- `let _ = unbounded_send(Item(Err(e)))`, then the observer (its sender) is dropped
+        { srcOpen := false, obs := false, chan := (w.chan.trySend (.item (.err e))).closeTx }
       else { w with srcOpen := false }
     else w
   | .complete =>
     if w.srcOpen then
       if w.obs then
-        if w.chan.isOpen then
-          { srcOpen := false, obs := false, chan := (w.chan.send .complete).closeTx }
-        else { srcOpen := false, obs := false, chan := w.chan.closeTx }
+        { srcOpen := false, obs := false, chan := (w.chan.trySend .complete).closeTx }
       else { w with srcOpen := false }
     else w
 
